@@ -8,6 +8,7 @@ import ArcaModel.Model.DispatchUnits
 import ArcaModel.Model.DispatchAtpClient
 import ArcaModel.Model.DispatchAtpServer
 import ArcaModel.Model.DispatchDescribe
+import ArcaModel.Model.DispatchLink
 /-
   Line-protocol driver: one JSON case per input line, one JSON result per output line.
   Runs the model's executable definitions; used by the correspondence checks.
@@ -17,7 +18,7 @@ open Lean Arca
 /-- every model's line-protocol handler: `op name → case → result` -/
 def handlers : List (String → Json → Option (Except String Json)) :=
   [Arca.Dispatch.schemaHandler, Arca.Dispatch.funcHandler, Arca.Dispatch.codegenHandler, Arca.Dispatch.stepHandler, Arca.Dispatch.raceHandler, Arca.Dispatch.unitsHandler,
-   Arca.Dispatch.atpClientHandler, Arca.Dispatch.atpServerHandler, Arca.Dispatch.describeHandler]
+   Arca.Dispatch.atpClientHandler, Arca.Dispatch.atpServerHandler, Arca.Dispatch.describeHandler, Arca.Dispatch.linkHandler]
 
 partial def loop (stdin stdout : IO.FS.Stream) : IO Unit := do
   let line ← stdin.getLine
